@@ -1,3 +1,4 @@
+import ShellOp.Model.HookRun
 /-
 How the four output files of a hook execution are read back, from the file TEXT (C12, third wave).
 
@@ -297,5 +298,39 @@ def more (cs : List Char) : Bool :=
 /-- Specification used by the oracle: is this text a well-formed file of the given kind? -/
 def streamOk (ok : V → Bool) (text : List Char) : Option (List V) := decodeLoop (next ok) (text.length + 1) text []
 def wholeOk (ok : V → Bool) (text : List Char) : Option V := decodeWhole (next ok) atEnd text
+
+/-! ### what `Run` / `handleRunHook` get from the readers, from the file text -/
+
+/-- `MetricOperationsFromFile`: unreadable (the hook deleted the file) → error; no bytes → nil;
+otherwise the decode loop; `batchValid`: does `ValidateOperations` accept the operations. -/
+def metricsOfText (deleted batchValid : Bool) (text : List Char) : Metrics :=
+  if deleted then .err
+  else if text.isEmpty then .none
+  else match streamOk (typed metricTable) text with
+    | none => .err
+    | some [] => .none
+    | some _ => .ops batchValid
+
+/-- `admission.ResponseFromFile` / `conversion.ResponseFromFile` (`ok`: the document fits the struct). -/
+def respOfText (ok : V → Bool) (deleted : Bool) (text : List Char) : Resp :=
+  if deleted then .err
+  else if text.isEmpty then .none
+  else match wholeOk ok text with
+    | none => .err
+    | some _ => .some
+
+def admissionOk (v : V) : Bool := typed admissionTable v
+def conversionOk (v : V) : Bool := typed conversionTable v && convObjectsOk v
+
+/-- The patch file as `ParseOperations` sees it when the text is a JSON stream (`unmarshalFromJson`;
+a text that is not one falls through to the YAML reader, which rejects it as well): `sem` = what the
+schema and the cluster make of well-formed documents. -/
+def patchOfText (deleted : Bool) (sem : Patch) (text : List Char) : Patch :=
+  if deleted then .unreadable
+  else if text.isEmpty then .empty
+  else match streamOk isObj text with
+    | none => .parseErr
+    | some [] => .empty
+    | some _ => sem
 
 end ShellOp.HookRun.Text
